@@ -166,7 +166,79 @@ Theorem C02_drawn_once : forall b,
 Proof. exact drawn_once. Qed.
 Print Assumptions C02_drawn_once.
 
+(* --- findEarlierPageBreak among the children of a block container, out-of-flow boxes
+   (float / absolutely positioned placeholders) included: keeping children[:j] and resuming
+   at child j -- the first removed child -- is a consistent step wherever the break falls,
+   so (C02_fragment_steps_conserve) nothing is lost; in particular every rewind the scan of
+   blocks.go:1180-1203 finds *)
+Theorem C02_rewind_resumes_at_first_removed_child :
+  forall (U : Type) (cs : list (child U)) j,
+    step_ok nat U (sib_content_from U cs) (rewound_step U cs j j).
+Proof. exact rewind_at_first_removed_ok. Qed.
+Print Assumptions C02_rewind_resumes_at_first_removed_child.
+
+Theorem C02_find_earlier_page_break_step_ok :
+  forall (U : Type) (avoid_after : nat -> bool) (cs : list (child U)) s,
+    find_earlier_step U avoid_after cs = Some s -> step_ok nat U (sib_content_from U cs) s.
+Proof. exact find_earlier_step_ok. Qed.
+Print Assumptions C02_find_earlier_page_break_step_ok.
+
+(* resuming at a later child r (e.g. the next in-flow sibling) is consistent if and only
+   if the children between the break and r carry no content: an out-of-flow box that sits
+   exactly at the rewound break must be the resume point *)
+Theorem C02_rewind_resume_at_later_child_iff :
+  forall (U : Type) (cs : list (child U)) j r,
+    j <= r ->
+    (step_ok nat U (sib_content_from U cs) (rewound_step U cs j r) <->
+     flat_map c_units (firstn (r - j) (skipn j cs)) = []).
+Proof. exact rewind_at_later_child_iff. Qed.
+Print Assumptions C02_rewind_resume_at_later_child_iff.
+
+(* --- a table row split between two pages: with the rule of tables.go:180-184 (a cell that
+   is absent from the row's resume map resumes at its end) every cell is conserved,
+   finished on the first page or not *)
+Theorem C02_row_split_cell_conserved :
+  forall (U : Type) (c : list U) p, p <= length c -> cell_two_pages U true c p = c.
+Proof. exact row_split_cell_conserved. Qed.
+Print Assumptions C02_row_split_cell_conserved.
+
+(* ... and it is needed: reading the missing key as the nil stack lays every finished
+   non-empty cell out a second time *)
+Theorem C02_row_split_nil_stack_refuted :
+  forall (U : Type) (c : list U), c <> [] -> cell_two_pages U false c (length c) <> c.
+Proof. exact row_split_nil_stack_not_conserved. Qed.
+Print Assumptions C02_row_split_nil_stack_refuted.
+
+(* --- a continued cell of which nothing fits on a page is conserved when it resumes where
+   it was.  The faithful model of tables.go:221-225 (resume at {0: nil}) violates the
+   statement: the known finding C02/table-cell-restarted-after-empty-fragment, witness
+   corpus/C02/005-*.json *)
+Theorem C02_cell_nothing_fits_resume_ok :
+  forall (U : Type) (c : list U) s, cell_three_pages U false c s = c.
+Proof. exact cell_nothing_fits_resume_ok. Qed.
+Print Assumptions C02_cell_nothing_fits_resume_ok.
+
+Theorem C02_cell_nothing_fits_restart_refuted :
+  exists (c : list nat) s, cell_three_pages nat true c s <> c.
+Proof. exists [1; 2; 3], 2. vm_compute. discriminate. Qed.
+Print Assumptions C02_cell_nothing_fits_restart_refuted.
+
 (* --- the hypotheses are inhabited *)
+(* a float F between the in-flow siblings b and c, `avoid` before d: the scan keeps [a; b]
+   and resumes at F (index 2); resuming at c (index 3) would not be a consistent step *)
+Example C02_example_rewind_at_out_of_flow_box :
+  let cs := [mkChild true [1]; mkChild true [2]; mkChild false [9]; mkChild true [3]] in
+  find_earlier_break nat (fun _ => false) cs = Some 2 /\
+  sib_content_from nat cs 0 = placed (rewound_step nat cs 2 2) ++ sib_content_from nat cs 2 /\
+  sib_content_from nat cs 0 <> placed (rewound_step nat cs 2 3) ++ sib_content_from nat cs 3.
+Proof. vm_compute. repeat split; auto. discriminate. Qed.
+
+Example C02_example_row_split :
+  cell_two_pages nat true [1; 2] 2 = [1; 2] /\ cell_two_pages nat false [1; 2] 2 = [1; 2; 1; 2] /\
+  cell_two_pages nat true [1; 2; 3] 1 = [1; 2; 3].
+Proof. vm_compute. auto. Qed.
+
+
 Example C02_example_steps :
   let content_from := idx_content 5 in
   let steps := [mkStep 0 [0; 1] (Some 2); mkStep 2 [2; 3; 4] None] in
